@@ -31,7 +31,7 @@ const SM4_MODES: [&str; 4] = ["cbc", "cfb", "ofb", "ctr"];
 fn n_targets() -> usize {
     1 + 4 + 1 + 6 + 5 + 1 + 2 + 4 + 4 + 1 + 1 + 1 + 1
 }
-const SPECIALS: usize = 3; // kdf, compute_za, termination
+const SPECIALS: usize = 5; // kdf, compute_za, termination, 2 x well-formed documents with wrong-sized fields
 
 fn samples(t: Tier) -> usize {
     t.pick(1, 8)
@@ -334,6 +334,9 @@ pub fn run_c20(p: &mut Prng, tier: Tier, i: usize, sink: &mut Sink) {
                     w.exec(json!({"op":"entry.sm2.compute_za","id":"id","pk":"pk","pk_via":via}));
                 }
             }
+        }
+        3 | 4 => {
+            crate::gen_c19::semantic_docs(p, &mut w, i - nt * CHUNKS - 3);
         }
         _ => {
             // termination clause: every key the constructors accept must let sign and encrypt finish
